@@ -127,6 +127,7 @@ struct ClientState
    ClientState() : tainted(false) {}
    std::map<std::string, std::string> mirror;    // canonical path -> payload text
    PathMatcher subs;                             // the client's own idea of its subscriptions (real patterns)
+   std::set<std::string> params;                 // the SUBSCRIBE: parameter names it holds on the server (as it spelled them)
    bool tainted;                                 // the oracle no longer applies (quiet flags / explicit GETDATA were used)
 };
 
@@ -196,6 +197,7 @@ static MessageRef BuildCommand(Ctx & c, int K, const std::string & code, const s
          if (qf()) {MessageRef fm = MkMsg(0); (void) qf()->SaveToArchive(*fm()); (void) m()->AddMessage(fn.c_str(), fm);}
               else (void) m()->AddBool(fn.c_str(), true);
          (void) c.cs[K].subs.PutPathFromString(rp.c_str(), qf, "*/*");
+         (void) c.cs[K].params.insert(rp);
       }
       return m;
    }
@@ -215,9 +217,14 @@ static MessageRef BuildCommand(Ctx & c, int K, const std::string & code, const s
          String esc = EscapeRegexTokens(String((std::string(PR_NAME_SUBSCRIBE_PREFIX)+rp).c_str()));
          (void) m()->AddString(PR_NAME_KEYS, esc);
          unsubbed.push_back(rp);
-         String adj(rp.c_str());   // the client's own record follows its commands in order
-         c.cs[K].subs.AdjustStringPrefix(adj, "*/*");
-         (void) c.cs[K].subs.RemovePathString(adj);
+         // the client's own record follows its commands in order; REMOVEPARAMETERS works on parameter NAMES: a name the
+         // client does not hold as a parameter removes nothing on the server (Refl/Params.v), so nothing here either
+         if (c.cs[K].params.erase(rp) > 0)
+         {
+            String adj(rp.c_str());
+            c.cs[K].subs.AdjustStringPrefix(adj, "*/*");
+            (void) c.cs[K].subs.RemovePathString(adj);
+         }
       }
       return m;
    }
@@ -233,7 +240,7 @@ static MessageRef BuildCommand(Ctx & c, int K, const std::string & code, const s
 // net effect of the Messages of one op on one client: path -> last payload set, or "-" when last removed
 typedef std::map<std::string, std::string> NetMap;
 
-static void ApplyToMirror(const W & w, ClientState & c, const Message & m, std::ostringstream & out, NetMap & net)
+static void ApplyToMirror(const W & w, ClientState & c, const Message & m, std::ostringstream & out, NetMap & net, std::vector<std::string> & bag)
 {
    out << "[R:";
    const String * s;
@@ -244,6 +251,7 @@ static void ApplyToMirror(const W & w, ClientState & c, const Message & m, std::
       out << p;
       c.mirror.erase(p);
       net[p] = "-";
+      bag.push_back("R"+p);
    }
    out << ";S:";
    bool first = true;
@@ -259,6 +267,7 @@ static void ApplyToMirror(const W & w, ClientState & c, const Message & m, std::
          out << p << "=" << pv;
          c.mirror[p] = pv;
          net[p] = pv;
+         bag.push_back("S"+p+"="+pv);
       }
    }
    out << "]";
@@ -305,8 +314,10 @@ static void RunCase(long k, const std::string & line)
    if (bar == std::string::npos) return;
    std::vector<std::string> ops = Split(line.substr(bar+1), ';');
    // label starting with 'x': print per client the NET EFFECT of the op's Messages (N{..}) instead of the Messages themselves:
-   // with several subscribers and small max-items the split points of a client's updates depend on the iteration order of the
-   // pooled subscriber tables (ImmutableHashtablePool cache), which the model does not reproduce; the net effect does not.
+   // and the sorted bag of everything sent.  With several subscribers the split points of a client's updates depend on the
+   // iteration order of the pooled subscriber tables (ImmutableHashtablePool cache: a node may get a table object that was built
+   // in another order for another node; max-items flushes and the set-then-remove flush are server-wide), which the model does
+   // not reproduce; net effect and bag do not depend on it.
    const bool netMode = (bar > 0)&&(line[0] == 'x');
    // label starting with 'z': the "malformed path" stream (paths / patterns with empty clauses, e.g. a trailing '/').  The mirror
    // oracle is not applied there (PathMatcher::MatchesPath tokenises away empty clauses); the refcount oracle below always is.
@@ -363,10 +374,11 @@ static void RunCase(long k, const std::string & line)
          Client & cl = w.client(ci);
          std::ostringstream mo;
          NetMap net;
+         std::vector<std::string> bag;   // everything sent, however it is split into Messages
          for (size_t mi=0; mi<cl.inbox.size(); mi++)
          {
             const Message * m = cl.inbox[mi]();
-            if ((m)&&(m->what == PR_RESULT_DATAITEMS)) ApplyToMirror(w, c.cs[ci], *m, mo, net);
+            if ((m)&&(m->what == PR_RESULT_DATAITEMS)) ApplyToMirror(w, c.cs[ci], *m, mo, net, bag);
          }
          cl.inbox.clear();
          if (netMode)
@@ -378,7 +390,10 @@ static void RunCase(long k, const std::string & line)
                o << "c" << ci << ":{";
                bool fn = true;
                for (NetMap::const_iterator it = net.begin(); it != net.end(); ++it) {if (!fn) o << ","; fn = false; o << it->first << "=" << it->second;}
-               o << "}";
+               o << "}[";
+               std::sort(bag.begin(), bag.end());
+               for (size_t bi=0; bi<bag.size(); bi++) {if (bi) o << ","; o << bag[bi];}
+               o << "]";
             }
          }
          else if (!mo.str().empty()) {if (!firstc) o << " "; firstc = false; o << "c" << ci << ":" << mo.str();}
